@@ -148,4 +148,63 @@ theorem x0x1_eq_overlap (x0o x1o x0e x1e : Int) (ho : x0o < x1o) (he : x0e < x1e
   (simp only [Option.some.injEq, Prod.mk.injEq, reduceCtorEq] at *) <;>
   (try omega)
 
+/-! ### the three core facts (used by Props/C19 and by the Layout2D lemmas) -/
+
+theorem rotate_commutes (c : Corner) (a : List (List α)) (h w : Nat) (r : R2)
+    (ha : a.length = h) (hrows : ∀ row ∈ a, row.length = w) (hr : Spec.R2.Inside r h w) :
+    ∃ r', Impl.rotateRegion r h w c = some r' ∧ Spec.R2.Inside r' h w
+      ∧ Impl.slice2d r' (Impl.rotateArray c a) = Impl.rotateArray c (Impl.slice2d r a) := by
+  refine ⟨reflect r h w c, rotateRegion_of_inside hr c, reflect_inside hr c, ?_⟩
+  unfold Spec.R2.Inside at hr
+  obtain ⟨h0, h1, h2, h3, h4, h5⟩ := hr
+  simp only [slice2d_eq_sliceN]
+  have ey0 : ((h : Int) - r.y1).toNat = a.length - r.y1.toNat := by omega
+  have ey1 : ((h : Int) - r.y0).toNat = a.length - r.y0.toNat := by omega
+  have ex0 : ((w : Int) - r.x1).toNat = w - r.x1.toNat := by omega
+  have ex1 : ((w : Int) - r.x0).toNat = w - r.x0.toNat := by omega
+  have hy : r.y0.toNat ≤ r.y1.toNat := by omega
+  have hy' : r.y1.toNat ≤ a.length := by omega
+  have hx : r.x0.toNat ≤ r.x1.toNat := by omega
+  have hx' : r.x1.toNat ≤ w := by omega
+  cases c
+  · rfl
+  · simp only [reflect, Impl.rotateArray, ey0, ey1]
+    exact sliceN_reverse_rows a _ _ _ _ hy hy'
+  · simp only [reflect, Impl.rotateArray, ex0, ex1]
+    exact sliceN_reverse_cols a w _ _ _ _ hrows hx hx'
+  · simp only [reflect, Impl.rotateArray, ey0, ey1, ex0, ex1]
+    have hrows' : ∀ row ∈ a.reverse, row.length = w := fun row hrow =>
+      hrows row (List.mem_reverse.mp hrow)
+    rw [sliceN_reverse_cols a.reverse w _ _ _ _ hrows' hx hx']
+    have := sliceN_reverse_rows a r.y0.toNat r.y1.toNat r.x0.toNat r.x1.toNat hy hy'
+    rw [this]
+
+theorem regionAfterExtraction_eq (o e : R2) (ho : Spec.R2.Valid o) (he : Spec.R2.Valid e) :
+    Impl.regionAfterExtraction o e =
+      if max o.y0 e.y0 < min o.y1 e.y1 ∧ max o.x0 e.x0 < min o.x1 e.x1 then
+        .value ⟨max o.y0 e.y0 - e.y0, min o.y1 e.y1 - e.y0, max o.x0 e.x0 - e.x0, min o.x1 e.x1 - e.x0⟩
+      else .absent := by
+  unfold Spec.R2.Valid at ho he
+  unfold Impl.regionAfterExtraction
+  rw [x0x1_eq_overlap _ _ _ _ ho.2.1 he.2.1, x0x1_eq_overlap _ _ _ _ ho.2.2.2 he.2.2.2]
+  unfold Spec.overlap1d
+  simp only
+  by_cases hy : max o.y0 e.y0 < min o.y1 e.y1 <;> by_cases hx : max o.x0 e.x0 < min o.x1 e.x1 <;>
+    simp only [hy, hx, if_true, if_false, and_self, and_false, false_and]
+  rw [region2dNew_eq_some (by dsimp only; omega)]
+
+theorem extraction_addresses (a : List (List α)) (o e r : R2)
+    (ho : Spec.R2.Valid o) (he : Spec.R2.Valid e)
+    (hres : Impl.regionAfterExtraction o e = .value r) :
+    Impl.slice2d r (Impl.slice2d e a) = Impl.slice2d (Spec.overlapRegion o e) a := by
+  rw [regionAfterExtraction_eq o e ho he] at hres
+  unfold Spec.R2.Valid at ho he
+  split at hres
+  · rename_i hov
+    injection hres with hres
+    subst hres
+    simp only [slice2d_eq_sliceN, Spec.overlapRegion, sliceN_sliceN]
+    congr 1 <;> omega
+  · exact absurd hres (by simp)
+
 end Model
